@@ -18,7 +18,9 @@ VARIANTS = [
     V("clip-no-upper-frequency", O, "        max_time + 1,\n        data.MAX_FREQUENCY,\n    )", "        max_time + 1,\n        2 * data.MAX_FREQUENCY,\n    )", "R11.5"),
     V("clip-cuts-right-edge", O, "        max_time + 1,", "        max_time - 1,", "R11.5"),
     V("unscale-by-other-factor", O, "    buffered = shapely.transform(buffered, lambda x: x / factor)", "    buffered = shapely.transform(buffered, lambda x: x / factor[::-1])", "R11.6"),
-    V("factor-not-inverse", O, "        1 / time_buffer if time_buffer > 0 else 1e9,", "        time_buffer if time_buffer > 0 else 1e9,", "R11.6"),
+    V("zero-factor-1e9(F17)", O, "        1 / freq_buffer if freq_buffer > 0 else 1e7,", "        1 / freq_buffer if freq_buffer > 0 else 1e9,", "R11.7"),
+    V("zero-factor-1e12", O, "        1 / freq_buffer if freq_buffer > 0 else 1e7,", "        1 / freq_buffer if freq_buffer > 0 else 1e12,", "R11.7"),
+    V("factor-not-inverse", O, "        1 / time_buffer if time_buffer > 0 else 1e7,", "        time_buffer if time_buffer > 0 else 1e7,", "R11.6"),
     V("buffer-distance-2", O, "        transformed,\n        1,\n        cap_style", "        transformed,\n        2,\n        cap_style", "R11.6"),
     V("timestamp-returns-unvalidated", O, "    return data.TimeInterval(coordinates=[start_time, end_time])\n\n\ndef buffer_interval", "    return data.TimeInterval.model_construct(coordinates=[start_time, end_time])\n\n\ndef buffer_interval", "R11.2"),
     # neutral
